@@ -34,10 +34,29 @@ for _q in QT:
 INT_FNS = ("agreement", "agreement[buffsz=2]")
 
 
-def _call(fn, W, cs):
+def labels(c, var=None):
+    """the affiliation vector as the code sees it.  var = (dtype, scale, layout): labels are handed
+    over as int64/int32/float64 (files written by other tools hold them as floats), multiplied by
+    `scale` (0.5: fractional labels - an injective renaming of what the record holds, so the
+    spec's relabelling relation on the integer labels still describes the call), contiguous or
+    as every second element of a larger vector."""
+    dtype, scale, layout = var or ("int64", 1, "C")
+    v = np.array(c, dtype=float) * scale
+    out = v.astype(dtype)
+    if not np.array_equal(out.astype(float), v):
+        raise core.MachineryError("lossy cast of a label vector to %s" % dtype)
+    if layout == "stride":
+        big = np.zeros(2 * len(out), dtype=out.dtype)
+        big[::2] = out
+        return big[::2]
+    return out
+
+
+def _call(fn, W, cs, var=None, opt=None):
     """-> (numeric output, list of partition-valued outputs)"""
     import bct
-    c = [np.array(x, dtype=int) for x in cs]
+    opt = opt or {}
+    c = [labels(x, var) for x in cs]
     arg = fn[fn.index("[") + 1:-1] if "[" in fn else None
     base = fn.split("[")[0]
     if base == "participation_coef":
@@ -51,10 +70,10 @@ def _call(fn, W, cs):
     if base == "gateway_coef_sign":
         return bct.gateway_coef_sign(W, c[0], arg), []
     if base == "modularity_und":
-        ci, q = bct.modularity_und(W, 1, c[0])
+        ci, q = bct.modularity_und(W, opt.get("gamma", 1), c[0])
         return q, [ci]
     if base == "modularity_dir":
-        ci, q = bct.modularity_dir(W, 1, c[0])
+        ci, q = bct.modularity_dir(W, opt.get("gamma", 1), c[0])
         return q, [ci]
     if base == "modularity_und_sign":
         ci, q = bct.modularity_und_sign(W, c[0], arg)
@@ -63,16 +82,21 @@ def _call(fn, W, cs):
         return bct.partition_distance(c[0], c[1]), []
     if base == "agreement":
         ci = np.array(c).T
+        if opt.get("fortran"):
+            ci = np.asfortranarray(ci)
         return (bct.agreement(ci, buffsz=2) if arg else bct.agreement(ci)), []
     raise core.MachineryError("no runner for " + fn)
 
 
-def _one(fn, W, cs, kind):
+def _one(fn, mkW, cs, kind, var=None, opt=None):
     holder = {}
 
+    scale = (var or ("int64", 1, "C"))[1]
+
     def thunk():
-        out, pouts = _call(fn, None if W is None else W.copy(), cs)
-        holder["p"] = [encode.vec_int(p) for p in pouts]
+        out, pouts = _call(fn, mkW(), cs, var, opt)
+        # a returned partition is read back in the record's label units (see `labels`)
+        holder["p"] = [encode.vec_int(np.asarray(p, dtype=float) / scale) for p in pouts]
         return out
     out, _shape, raised = rc.call2(thunk, kind)
     return out, holder.get("p", []), raised
@@ -82,19 +106,32 @@ def _ls1(ls):
     return [[int(v) + 1 for v in m] for m in ls]
 
 
+def _var(job, key):
+    v = job.get(key)
+    return tuple(v) if v else None
+
+
 def exec_job(job):
     import bct
     rel = job["rel"]
     if rel == "relabel":
         fn = job["fn"]
         kind = "int" if fn in INT_FNS else "real"
-        W = np.array(job["W"], dtype=float) if job.get("W") is not None else None
+        W0 = np.array(job["W"], dtype=float) if job.get("W") is not None else None
+        # the network as another argument dtype / memory layout (a fresh array per call)
+        mkW = (lambda: None) if W0 is None else \
+            (lambda: rc.as_variant(W0, job.get("dtype", "float64"), job.get("layout", "C")))
+        mkW()
+        for c in job["cs1"]:
+            labels(c, _var(job, "civar1"))
+        for c in job["cs2"]:
+            labels(c, _var(job, "civar2"))
         rec = dict(prop="C14", rel=rel, fn=fn, n=len(job["cs1"][0]), cs1=job["cs1"], cs2=job["cs2"])
-        rec["out1"], rec["pout1"], rec["raised1"] = _one(fn, W, job["cs1"], kind)
-        rec["out2"], rec["pout2"], rec["raised2"] = _one(fn, W, job["cs2"], kind)
+        rec["out1"], rec["pout1"], rec["raised1"] = _one(fn, mkW, job["cs1"], kind, _var(job, "civar1"), job.get("opt"))
+        rec["out2"], rec["pout2"], rec["raised2"] = _one(fn, mkW, job["cs2"], kind, _var(job, "civar2"), job.get("opt"))
         return rec
     if rel == "pdist":
-        cx, cy = np.array(job["cx"], dtype=int), np.array(job["cy"], dtype=int)
+        cx, cy = labels(job["cx"], _var(job, "civar1")), labels(job["cy"], _var(job, "civar2"))
         rec = dict(prop="C14", rel=rel, fn="partition_distance", n=len(cx), cx=job["cx"], cy=job["cy"],
                    vxy=0, mxy=0, vyx=0, myx=0, raised="")
         try:
@@ -106,7 +143,9 @@ def exec_job(job):
             rec["raised"] = encode.exc_name(e)
         return rec
     if rel == "ci2ls":
-        ci, ci2 = np.array(job["ci"], dtype=int), np.array(job["ci2"], dtype=int)
+        idt = (job.get("civar1") or ["int64"])[0]
+        idt = idt if idt.startswith("int") else "int64"        # ci2ls indexes with the labels
+        ci, ci2 = np.array(job["ci"], dtype=idt), np.array(job["ci2"], dtype=idt)
         lsin = [list(m) for m in job["lsin"]]          # 0-based node ids, as the code expects
         rec = dict(prop="C14", rel=rel, fn="ci2ls~ls2ci", n=len(ci), ci=job["ci"], ci2=job["ci2"],
                    lsin=_ls1(lsin), ls=[], ls2=[], back=[], back0=[], ciofls=[], ciofls0=[],
@@ -137,7 +176,37 @@ def network(rng, n, typ, dense=True):
     return inputs.rand_graph(rng, n, p, und=True, wmax=3, signed=True)
 
 
+def structured_network(rng, typ, nmin=6, nmax=10):
+    """(n, W): a structured support (rel_common.structured_support: paths, stars, rings of cliques,
+    bipartite, several components, isolated nodes ...) with weights from a drawn set (single
+    value = every weight ties), oriented for 'dir', random signs for 'sign'"""
+    name, n, edges = rc.structured_support(rng, nmin, nmax)
+    ws = rng.choice([[1, 2, 3], [1], [2], [1, 3]])
+    und = typ != "dir"
+    if not und:
+        edges = rc.orient(rng, edges)
+    w = [rng.choice(ws) * (rng.choice([1, -1]) if typ == "sign" else 1) for _ in edges]
+    return name, n, inputs.mat_from_edges(n, edges, und=und, w=w)
+
+
 def rand_partition(rng, n):
+    """shape drawn: uniform labels over k blocks, one block, all singletons, one big block plus
+    singletons, consecutive equal blocks (the modules of a ring of cliques)"""
+    shape = rng.choice(["uniform", "uniform", "uniform", "one", "singletons", "big+singletons", "equal"])
+    if shape == "one":
+        return [1] * n
+    if shape == "singletons":
+        c = list(range(1, n + 1))
+        rng.shuffle(c)
+        return c
+    if shape == "big+singletons":
+        m = rng.randint(2, n - 1)
+        c = [1] * m + list(range(2, n - m + 2))
+        rng.shuffle(c)
+        return c
+    if shape == "equal":
+        m = rng.choice([2, 3, 4])
+        return [i // m + 1 for i in range(n)]
     k = rng.randint(1, n)
     c = [rng.randint(1, k) for _ in range(n)]
     return c
@@ -167,6 +236,39 @@ def blocks(c):
     return list(d.values())
 
 
+W_DTYPES = {"und": rc.DT_COUNT, "dir": rc.DT_COUNT, "sign": rc.DT_SIGNED}
+
+
+def w_variant(rng, typ, p_plain):
+    """network weights are small (signed) integers: int64/int32 arrays are the same matrices.
+    rel_common.admissible: the consumers subtract / divide W-typed arrays and return real values
+    -> no unsigned type, no float32"""
+    dt, lay = rc.draw_variant(rng, W_DTYPES[typ], p_plain)
+    return rc.admissible(dt), lay
+
+
+def ci_variant(rng, p_plain):
+    """(dtype, scale, layout) of a label vector; scale 0.5 (fractional labels) needs float64"""
+    if rng.random() < p_plain:
+        return ["int64", 1, "C"]
+    dt = rng.choice(["int64", "int32", "float64", "float64"])
+    return [dt, rng.choice([1, 1, 0.5]) if dt == "float64" else 1, rng.choice(["C", "stride"])]
+
+
+def relabel_job(rng, fn, src, W, cs1, cs2, typ=None, p_plain=0.5):
+    """one f(W, c) vs f(W, rho o c) job; the two label vectors get independent dtype draws (a
+    renamed vector written by another tool need not have the dtype of the original)"""
+    j = dict(rel="relabel", fn=fn, src=src, W=W, cs1=cs1, cs2=cs2,
+             civar1=ci_variant(rng, p_plain), civar2=ci_variant(rng, p_plain), opt={})
+    if fn in INT_FNS:            # agreement: co-assignment counts; the stack of partitions as F-order
+        j["opt"]["fortran"] = rng.randrange(2)
+    if W is not None:
+        j["dtype"], j["layout"] = w_variant(rng, typ or FNS[fn], p_plain)
+    if fn.startswith(("modularity_und[", "modularity_dir[")):
+        j["opt"]["gamma"] = rng.choice([1, 1, 0.5, 2])
+    return j
+
+
 def build_jobs(ctx):
     rng = random.Random(ctx.seed)
     jobs = []
@@ -174,27 +276,29 @@ def build_jobs(ctx):
     sizes = [4] if ctx.quick else [4, 5]
     for n in sizes:
         items = rc.model_partitions(ctx, n)
-        bank = {t: [network(rng, n, t, dense=(k % 2 == 0)).tolist() for k in range(6)]
+        bank = {t: [network(rng, n, t, dense=rng.random() < 0.5).tolist() for k in range(6)]
                 for t in ("und", "dir", "sign")}
         by_canon = {}
         for c, r in items:
             by_canon.setdefault(c, []).append(r)
         for i, (c, r) in enumerate(items):
-            # f(W, c) vs f(W, rho o c); quick: a rotating third of the functions per item
+            # f(W, c) vs f(W, rho o c); quick: every function with probability 1/3 per item
             for k, fn in enumerate(fns):
-                if ctx.quick and (i + k) % 3:
+                if ctx.quick and rng.random() >= 1.0 / 3:
                     continue
-                W = bank[FNS[fn]][(i + k) % 6]
-                jobs.append(dict(rel="relabel", fn=fn, src="model", W=W, cs1=[list(c)], cs2=[list(r)]))
+                W = rng.choice(bank[FNS[fn]])
+                jobs.append(relabel_job(rng, fn, "model", W, [list(c)], [list(r)]))
             # partition_distance of a partition with its renaming (must be VIn 0, MIn 1)
-            jobs.append(dict(rel="pdist", fn="partition_distance", src="model", cx=list(c), cy=list(r)))
-            if not ctx.quick or i % 3 == 0:
+            jobs.append(dict(rel="pdist", fn="partition_distance", src="model", cx=list(c), cy=list(r),
+                             civar1=ci_variant(rng, 0.5), civar2=ci_variant(rng, 0.5)))
+            if not ctx.quick or rng.random() < 1.0 / 3:
                 ls = blocks(c)
                 rng.shuffle(ls)
                 for m in ls:
                     rng.shuffle(m)
                 jobs.append(dict(rel="ci2ls", fn="ci2ls~ls2ci", src="model", ci=list(r),
-                                 ci2=list(rng.choice(by_canon[c])), lsin=ls))
+                                 ci2=list(rng.choice(by_canon[c])), lsin=ls,
+                                 civar1=[rng.choice(["int64", "int32"]), 1, "C"]))
         # all ordered pairs of partitions, arbitrarily labelled: symmetry, zero/unit iff same,
         # and relabel invariance of partition_distance in both arguments
         canon = sorted(by_canon)
@@ -203,35 +307,55 @@ def build_jobs(ctx):
                 for _ in range(1 if ctx.quick else 2):
                     x, y = rng.choice(by_canon[cx]), rng.choice(by_canon[cy])
                     jobs.append(dict(rel="pdist", fn="partition_distance", src="model",
-                                     cx=list(x), cy=list(y)))
-                    jobs.append(dict(rel="relabel", fn="partition_distance", src="model", W=None,
-                                     cs1=[list(cx), list(cy)], cs2=[list(x), list(y)]))
+                                     cx=list(x), cy=list(y),
+                                     civar1=ci_variant(rng, 0.5), civar2=ci_variant(rng, 0.5)))
+                    jobs.append(relabel_job(rng, "partition_distance", "model", None,
+                                            [list(cx), list(cy)], [list(x), list(y)]))
         # agreement over M partitions, every column renamed independently
         for _ in range(200 if ctx.quick else 2500):
             M = rng.randint(1, 5)
             cols = [rng.choice(items) for _ in range(M)]
             for fn in INT_FNS:
-                jobs.append(dict(rel="relabel", fn=fn, src="model", W=None,
-                                 cs1=[list(c) for c, _ in cols], cs2=[list(r) for _, r in cols]))
-    # random larger networks / partitions / renamings
+                jobs.append(relabel_job(rng, fn, "model", None,
+                                        [list(c) for c, _ in cols], [list(r) for _, r in cols]))
+    # random larger networks (G(n,p) and structured supports) / partitions / renamings
     for t in range(60 if ctx.quick else 1200):
-        n = rng.randint(6, 10)
+        nets, src = {}, "random"
+        if rng.random() < 0.4:
+            # the same structured support for the three network types
+            st = rng.getstate()
+            for typ in ("und", "dir", "sign"):
+                rng.setstate(st)
+                name, n, _ = rc.structured_support(rng, 6, 10)
+                rng.setstate(st)
+                _, _, W = structured_network(rng, typ)
+                nets[typ] = W.tolist()
+            src = "struct-" + name
+        else:
+            n = rng.randint(6, 10)
+            dense = rng.random() < 0.5
+            nets = {typ: network(rng, n, typ, dense=dense).tolist() for typ in ("und", "dir", "sign")}
         c = rand_partition(rng, n)
         r = rand_relabel(rng, c)
-        nets = {typ: network(rng, n, typ, dense=bool(t % 2)).tolist() for typ in ("und", "dir", "sign")}
         for fn in fns:
-            jobs.append(dict(rel="relabel", fn=fn, src="random", W=nets[FNS[fn]], cs1=[c], cs2=[r]))
-        c2 = rand_partition(rng, n) if t % 4 else list(c)
+            jobs.append(relabel_job(rng, fn, src, nets[FNS[fn]], [c], [r], p_plain=0.3))
+        c2 = rand_partition(rng, n) if rng.random() < 0.75 else list(c)
         r2 = rand_relabel(rng, c2)
-        jobs.append(dict(rel="pdist", fn="partition_distance", src="random", cx=r, cy=r2))
-        jobs.append(dict(rel="relabel", fn="partition_distance", src="random", W=None,
-                         cs1=[c, c2], cs2=[r, r2]))
+        jobs.append(dict(rel="pdist", fn="partition_distance", src=src, cx=r, cy=r2,
+                         civar1=ci_variant(rng, 0.3), civar2=ci_variant(rng, 0.3)))
+        jobs.append(relabel_job(rng, "partition_distance", src, None, [c, c2], [r, r2], p_plain=0.3))
         for fn in INT_FNS:
-            jobs.append(dict(rel="relabel", fn=fn, src="random", W=None, cs1=[c, c2, c], cs2=[r, r2, c]))
+            jobs.append(relabel_job(rng, fn, src, None, [c, c2, c], [r, r2, c], p_plain=0.3))
         ls = blocks(c)
         rng.shuffle(ls)
-        jobs.append(dict(rel="ci2ls", fn="ci2ls~ls2ci", src="random", ci=r, ci2=c, lsin=ls))
+        jobs.append(dict(rel="ci2ls", fn="ci2ls~ls2ci", src=src, ci=r, ci2=c, lsin=ls,
+                         civar1=[rng.choice(["int64", "int32"]), 1, "C"]))
     return jobs
+
+
+def describe(job, rec, clause):
+    v = {k: job[k] for k in ("dtype", "layout", "civar1", "civar2", "opt") if job.get(k)}
+    return rc.describe(job, rec, clause) + (" variants=%s" % v if v else "")
 
 
 BAD_SKIPS = ("skip:unknown_function", "skip:not_a_relabelling", "skip:not_a_module_list",
@@ -246,8 +370,9 @@ def run(ctx):
     bad = [(j["fn"], v[0]) for j, v in zip(jobs, verdicts) if v[0] in BAD_SKIPS]
     if bad:
         raise core.MachineryError("harness produced records outside the spec's domain: %s" % bad[:5])
-    ctx.judge(jobs, recs, verdicts, what=rc.describe)
+    ctx.judge(jobs, rc.tag_failures(ctx, jobs, recs, verdicts), verdicts, what=describe)
     ctx.extra["verdict_counts"] = rc.count_verdicts(recs, verdicts)
+    ctx.extra["argument_variants"] = rc.variant_counts([j for j in jobs if j.get("W") is not None])
     rc.note_never_judged(ctx, recs, verdicts)
     seen = set()
     for j, r, v in zip(jobs, recs, verdicts):
@@ -266,16 +391,23 @@ def run(ctx):
                 "(TLC-enumerated, spec/GenPartitions.tla) x %s of the %d label-consuming function variants "
                 "on weighted/directed/signed networks; all ordered pairs of partitions for partition_distance; "
                 "agreement over 1..5 independently renamed partitions; ci2ls/ls2ci round trips; seeded random "
-                "n in 6..10 with zero-based/permuted/gapped/negative/large labels; non-trivial = distinct judged "
+                "n in 6..10 (G(n,p) and structured supports: paths, stars, rings of cliques, bipartite, several "
+                "components, isolated nodes) with zero-based/permuted/gapped/negative/large labels and partition "
+                "shapes incl. one block / all singletons / equal blocks; networks also as int64/int32 arrays and in "
+                "other memory layouts, label vectors as int64/int32/float64 (also fractional, strided; drawn "
+                "independently for the two labellings), gamma in {1/2,1,2} for modularity_*, all drawn from the "
+                "seeded RNG; non-trivial = distinct judged "
                 "case with >= 2 modules and a renaming that changes the vector"
-                % (nmax, "a rotating third" if ctx.quick else "all", len(FNS) + 3))
+                % (nmax, "a drawn third" if ctx.quick else "all", len(FNS) + 3))
     k = next(i for i, j in enumerate(jobs) if j["src"] == "random" and j["rel"] == "relabel")
     ctx.add_sample("model-input", dict(job=jobs[100], record=recs[100], verdict=verdicts[100]))
     ctx.add_sample("random-input", dict(job=jobs[k], record=recs[k], verdict=verdicts[k]))
     ctx.assumptions += [
         "TLC evaluates the definitions of spec/Relations.tla correctly",
         "outputs are compared after encoding: integers exactly, reals as round(x*10^6) within +-2",
-        "integer weights 1..3 (signed for the _sign functions); gamma = 1 for modularity_*",
+        "integer weights 1..3 (signed for the _sign functions); gamma in {1/2, 1, 2} for modularity_und/_dir",
+        "fractional labels are handed to the code as half the integer labels of the record (an injective renaming "
+        "of them, so the record's labellings are relabellings of what the code saw)",
         "a function that raises the same exception for both labellings is skipped (no result to compare)",
     ]
     return ctx.finish()
@@ -287,5 +419,5 @@ def replay(ctx, rp):
     verdicts = ctx.validate(*rc.TRACE, recs, tag="c14")
     core.log("replay verdict:", verdicts[0])
     core.log("  " + rc.describe(job, recs[0], verdicts[0][0]))
-    ctx.judge([job], recs, verdicts, what=rc.describe)
+    ctx.judge([job], recs, verdicts, what=describe)
     return ctx.finish()
